@@ -345,7 +345,7 @@ pub fn c04(args: &Args) {
     }
     report.exhaustive = !report.extra.contains_key("watchdog");
     report.extra.insert("exhaustive_lengths".into(), json!(lens));
-    let n_random = args.pick(300_000, 6_000_000);
+    let n_random = args.pick(2_000_000, 30_000_000);
     let seed = args.seed;
     run_cases(&mut report, n_random, args.threads, Duration::from_secs(args.pick(60, 900)), |i| {
         let mut rng = rng_for(seed, 0xC04, i);
@@ -736,7 +736,7 @@ pub fn c03(args: &Args) {
     c03_exhaustive(&mut report, args, Regime::Prefix);
     c03_exhaustive(&mut report, args, Regime::Window);
     report.exhaustive = false; // exhaustive only for the small universe; random beyond
-    let n = args.pick(150_000, 5_000_000);
+    let n = args.pick(600_000, 10_000_000);
     let seed = args.seed;
     for (regime, stream) in [(Regime::Prefix, 0xC03A), (Regime::Window, 0xC03B)] {
         run_cases(&mut report, n, args.threads, Duration::from_secs(args.pick(60, 600)), |i| {
@@ -914,7 +914,7 @@ pub fn c05(args: &Args) {
         report.finish(args);
         return;
     }
-    let n = args.pick(250_000, 8_000_000);
+    let n = args.pick(2_000_000, 30_000_000);
     let seed = args.seed;
     for (regime, stream) in [(Regime::Prefix, 0xC05A), (Regime::Window, 0xC05B)] {
         run_cases(&mut report, n, args.threads, Duration::from_secs(args.pick(60, 900)), |i| {
@@ -1041,7 +1041,7 @@ pub fn c08_local(args: &Args) {
         return;
     }
     let seed = args.seed;
-    let n = args.pick(60_000, 3_000_000);
+    let n = args.pick(1_500_000, 30_000_000);
     run_cases(&mut report, n, args.threads, Duration::from_secs(args.pick(60, 900)), |i| c08_case(seed, i));
     report.finish(args);
 }
